@@ -33,6 +33,20 @@ class EngineZone(EngineC):
         return [["-seed", str(seed), "-cases", str(n), "-only", "zone"]]
 
 
+class EngineHammer(EngineC):
+    """the drain-and-abort protocol (Model/Drain.lean) on the real closeConns / abortPending / accept0 / enroll: two
+    goroutines per round, many rounds with a sweeping start offset; the model predicts that nothing is stranded"""
+    suffix = "-hm"
+    ncases = (3, 24)
+
+    def gen_args(self, tier, seed):
+        n = self.ncases[0] if tier == "quick" else self.ncases[1]
+        return [["-seed", str(seed), "-cases", str(n), "-only", "hammer"]]
+
+    def nontrivial(self, cr):
+        return any("handed=" in l for l in cr.impl)
+
+
 class EngineHandover(EngineC):
     """server lives built against instrumented copies of connection_unix.go / eventloop_unix.go that log every
     hand-over, registration, close and loop exit in one global order; the Lean hand-over model replays the
